@@ -1,4 +1,4 @@
-\* small alphabet, longer stores (<= 5 lines); run with -coverage for the vacuity evidence
+\* tiny: run with -coverage for the per-action vacuity evidence
 SPECIFICATION MCSpec
 CONSTANTS
   RepairedFind = TRUE
@@ -9,7 +9,7 @@ CONSTANTS
   ExtraLines <- X_min
   Styles = {"lf", "mix"}
   MaxTextLines = 1
-  MaxLines = 5
+  MaxLines = 3
   MaxDepth = 1000
 INVARIANTS TypeOK Inv_LookupS Inv_LookupI Inv_SetGet Inv_SetOrder EnumInFileOrder EnumIsFilter RoundTrip CalcEqualsGen GenRespectsCap
 CHECK_DEADLOCK FALSE
